@@ -19,12 +19,20 @@ import impl
 import lib
 import universe
 
-COQ_TARGETS = ["theories/Props/C05.vo", "theories/Model/BuildTables.vo", "theories/Model/CoreTables.vo"]
+COQ_TARGETS = ["theories/Props/C05.vo", "theories/Props/C05Bridge.vo", "theories/Model/BuildTables.vo",
+               "theories/Model/CoreTables.vo"]
 THEOREMS = ["C05_build_routes", "C05_unmarshal", "C05_marshal"]
+BRIDGE_THEOREMS = ["C05_contract_from_graph", "C05_contract_from_graph_env", "C05_root_from_graph",
+                   "C05_orders_contract_from_graph", "C05_unmarshal_from_graph", "C05_marshal_from_graph",
+                   "C07_build_total_from_graph", "C07_all_depths_from_graph", "C15_construction_total_from_graph",
+                   "C05_topo_check_sound", "C05_refs_ok_from_names", "C05_names_check_sound",
+                   "C05_contract_refuted_any_not_passthrough", "C05_contract_refuted_wrong_resolver"]
 
 
 def prove(run: lib.Run):
     run.check_props("Props/C05.v", THEOREMS)
+    # the order contract is a theorem of C09's graph model (notes/bridge.md)
+    run.check_props("Props/C05Bridge.v", BRIDGE_THEOREMS)
     run.assumptions += [
         "C05: graph.static_order enters the theorem as an arbitrary node order satisfying the C09 contract "
         "(order_ok); the observed order is fed to the model in the tie and checked against order_ok there",
